@@ -1554,6 +1554,58 @@ fn kind_broadword(rng: &mut Rng, out: &mut Out, id: &str, tier: &str) {
     out.end();
 }
 
+// kind 13: a structure whose Vec has more than 65536 (and more than 2^16 + a few) elements: serialization
+// round trip and a few truncations / budgets only (no spec list is kept for it)
+fn kind_bigvec(rng: &mut Rng, out: &mut Out, id: &str, _tier: &str) {
+    out.case(id);
+    let bit = rng.chance(1, 2);
+    let words = rng.pick(&[65_535usize, 65_536, 65_537, 65_600, 70_000]);
+    let len = words * 64 - rng.below(64) as usize;
+    let bv = BitVector::from_bit(bit, len);
+    out.op(1013, &[bit as usize, len], "K".into(), "BitVector::from_bit (large)");
+    let mut bytes = vec![];
+    let ret = guard(|| bv.serialize_into(&mut bytes));
+    out.op(98, &[], r_num(|| bv.size_in_bytes()), "size_in_bytes");
+    out.op(96, &[usize::MAX], match &ret { Some(Ok(n)) => format!("n:{:x}", n), Some(Err(_)) => "E".into(), None => "P".into() },
+           "serialize_into return value");
+    let size = bytes.len();
+    {
+        let mut with_junk = bytes.clone();
+        with_junk.extend_from_slice(&[1, 2, 3]);
+        let r = guard(|| {
+            let mut rd: &[u8] = &with_junk;
+            match BitVector::deserialize_from(&mut rd) {
+                Ok(v) => v == bv && rd.len() == 3,
+                Err(_) => false,
+            }
+        });
+        out.op(95, &[], match r { None => "P".into(), Some(b) => format!("b:{}", b as u8) }, "round trip + junk");
+    }
+    for &n in &[0usize, 7, 8, 9, size / 2, 8 + 8 * 65536, 8 + 8 * 65536 + 1, size - 9, size - 8, size - 1] {
+        if n < size {
+            let r = guard(|| BitVector::deserialize_from(&bytes[..n]).is_ok());
+            out.op(97, &[n], match r { None => "P".into(), Some(true) => "K".into(), Some(false) => "E".into() }, "deserialize prefix");
+        }
+    }
+    for &b in &[0usize, 8, size / 2, size - 1, size] {
+        let r = guard(|| { let mut w = LimitedWriter { budget: b, written: vec![] }; bv.serialize_into(&mut w).ok() });
+        out.op(96, &[b], match r { None => "P".into(), Some(None) => "E".into(), Some(Some(n)) => format!("n:{:x}", n) }, "write budget");
+    }
+    // the same for a Rank9Sel over it (block_rank_pairs > 16384 entries, hints) and reads across the 2^16-th word
+    let r9 = Rank9Sel::new(bv.clone()).select1_hints();
+    for &p in &[64 * 65_535usize, 64 * 65_535 + 63, 64 * 65_536 - 1, len - 1, len] {
+        if p <= len {
+            out.op(14, &[p], r_optnum(|| r9.rank1(p)), "rank1 (large)");
+            out.op(11, &[p], r_optbool(|| bv.get_bit(p)), "get_bit (large)");
+        }
+    }
+    let mut b2 = vec![];
+    let ok = guard(|| r9.serialize_into(&mut b2)).is_some();
+    let r = guard(|| match Rank9Sel::deserialize_from(&b2[..]) { Ok(v) => v == r9, Err(_) => false });
+    out.op(94, &[], match (ok, r) { (true, Some(b)) => format!("b:{}", b as u8), _ => "P".into() }, "Rank9Sel round trip (large)");
+    out.end();
+}
+
 // ------------------------------------------------------------------------------------------
 fn main() {
     // panics inside sucds (under `guard`) are results; anywhere else they are harness errors
@@ -1592,6 +1644,7 @@ fn main() {
                 10 => kind_wm(&mut rng, &mut out, &id, tier),
                 11 => kind_broadword(&mut rng, &mut out, &id, tier),
                 12 => kind_ef_from_bits(&mut rng, &mut out, &id, tier),
+                13 => kind_bigvec(&mut rng, &mut out, &id, tier),
                 _ => panic!("unknown kind"),
             }
         }
